@@ -36,6 +36,7 @@ type Outcome struct {
 	HighEpoch       bool
 	ZeroWatermark   bool
 	ByKey           bool
+	Padded          bool
 	ViaGRPC         bool
 	ReleasedHigh    bool
 	Results         [][]string
@@ -109,6 +110,7 @@ func Run(c *Case, which string) (*Outcome, *vkit.Violation, error) {
 			singleKeys[e.Key] = true
 			o.Requests++
 			o.ByKey = o.ByKey || e.ByKey
+			o.Padded = o.Padded || (e.ByKey && e.Pad > 0)
 			o.ViaGRPC = o.ViaGRPC || s.ViaGRPC
 			o.HighEpoch = o.HighEpoch || isHigh(e.Att.SrcEpoch) || isHigh(e.Att.TgtEpoch)
 			if _, bad := h.AttConflict(key, &e.Att); bad {
@@ -118,7 +120,7 @@ func Run(c *Case, which string) (*Outcome, *vkit.Violation, error) {
 				o.ZeroWatermark = true
 			}
 			a := e.Att
-			r := st.Attest(Client, "", vkit.TargetOf(acc, e.ByKey), s.ViaGRPC, &a)
+			r := st.Attest(Client, "", vkit.TargetPadded(acc, e.ByKey, e.Pad), s.ViaGRPC, &a)
 			o.Results = append(o.Results, []string{r.State})
 			if r.Released() {
 				o.Released++
@@ -140,7 +142,7 @@ func Run(c *Case, which string) (*Outcome, *vkit.Violation, error) {
 				e := s.Entries[i]
 				acc := w.Accounts[e.Key]
 				key := fmt.Sprintf("%x", acc.PubKey)
-				ts[i] = vkit.TargetOf(acc, e.ByKey)
+				ts[i] = vkit.TargetPadded(acc, e.ByKey, e.Pad)
 				a := e.Att
 				as[i] = &a
 				if seen[e.Key] {
@@ -150,6 +152,7 @@ func Run(c *Case, which string) (*Outcome, *vkit.Violation, error) {
 				batchKeys[e.Key] = true
 				o.Requests++
 				o.ByKey = o.ByKey || e.ByKey
+				o.Padded = o.Padded || (e.ByKey && e.Pad > 0)
 				o.HighEpoch = o.HighEpoch || isHigh(e.Att.SrcEpoch) || isHigh(e.Att.TgtEpoch)
 				if _, bad := h.AttConflict(key, &e.Att); bad {
 					conflicts[i] = true
@@ -189,6 +192,7 @@ func Run(c *Case, which string) (*Outcome, *vkit.Violation, error) {
 			key := fmt.Sprintf("%x", acc.PubKey)
 			o.Requests++
 			o.ByKey = o.ByKey || s.ByKey
+			o.Padded = o.Padded || (s.ByKey && s.Pad > 0)
 			o.ViaGRPC = o.ViaGRPC || s.ViaGRPC
 			o.HighEpoch = o.HighEpoch || isHigh(s.Prop.Slot)
 			if _, bad := h.PropConflict(key, s.Prop); bad {
@@ -198,7 +202,7 @@ func Run(c *Case, which string) (*Outcome, *vkit.Violation, error) {
 				o.ZeroWatermark = true
 			}
 			p := *s.Prop
-			r := st.Propose(Client, "", vkit.TargetOf(acc, s.ByKey), s.ViaGRPC, &p)
+			r := st.Propose(Client, "", vkit.TargetPadded(acc, s.ByKey, s.Pad), s.ViaGRPC, &p)
 			o.Results = append(o.Results, []string{r.State})
 			if r.Released() {
 				o.Released++
